@@ -238,6 +238,21 @@ def run(ctx: Ctx) -> None:
                  synthetic4()[0], bye_repl=False, lo=0, hi=12 ** 8)
         ctx.cap("4 teams x 3 rounds: the 12^8 plans whose first day is the "
                 "first day row, without bye replacements")
+    # six teams, single round robin: completions of fixed first day row(s)
+    six = [[0 if i == j else 1 + (3 * i + 5 * j) % 7 for j in range(6)]
+           for i in range(6)]
+    if quick:
+        _explore(ctx, "n6_r1_first_two_days_fixed", 6, 1, False, False, six,
+                 bye_repl=True, lo=17 * 120 ** 3, hi=18 * 120 ** 3)
+        ctx.cap("6 teams: only 120^3 single round-robin plans (first two "
+                "day rows fixed)")
+    else:
+        _explore(ctx, "n6_r1_first_day_fixed", 6, 1, False, False, six,
+                 bye_repl=False, lo=0, hi=120 ** 4)
+        _explore(ctx, "n6_r1_first_two_days_fixed", 6, 1, False, False, six,
+                 bye_repl=True, lo=17 * 120 ** 3, hi=18 * 120 ** 3)
+        ctx.cap("6 teams: only the 120^4 single round-robin plans whose "
+                "first day is the first day row")
     # public API
     distinct += _public(ctx, "public_n2_r2", 2, 2, False, True,
                         [[[0, 1], [2, 0]], [[0, 5], [5, 0]],
@@ -258,7 +273,7 @@ def run(ctx: Ctx) -> None:
                 "length": public_eval(y, synthetic4()[0]),
                 "model": int(M.plan_length(y, np.array(synthetic4()[0]),
                                            25))})
-    ctx.assume("team counts 2 and 4 only; matrices: all over {0,1,2,5} for "
+    ctx.assume("team counts 2 and 4 (6: a slice); matrices: all over {0,1,2,5} for "
                "n=2, 7 shipped + 4 synthetic for n=4")
 
 
